@@ -301,7 +301,11 @@ func zzStepKind(k int, classes int) {
 		// C14-F2: what the step hands back (its value, the bindings it made)
 		// must not alias process-wide state: a later store through such an
 		// alias would be visible to every other run
-		al := zz.FrozenAliases(v) + zz.FrozenAliases(zzResultRV)
+		al := zz.FrozenAliases(v)
+		if err == nil {
+			// (with an error the returned Value is not used by any caller)
+			al += zz.FrozenAliases(zzResultRV)
+		}
 		for _, name := range []string{"x", "v1", "v2", "k", "v", "e"} {
 			if rv, gerr := e.GetValue(name); gerr == nil {
 				al += zz.FrozenAliases(rv)
